@@ -48,6 +48,14 @@ ObsC03(r, p) ==
   /\ {s \in SeqSet(r.pin) : ColorOf(p.b[s]) = p.stm} = Pinned(p)
   /\ r.eq_fresh = TRUE
 
+(* alternative accessors of the same state: my_/their_castle_rights (index 1*[king side] + 2*[queen side]) and *)
+(* the colour-blind pieces(kind) sets (order pawn, knight, bishop, rook, queen, king)                          *)
+RightsIdx(p, c) == (IF Pc(c, "k") \in p.cr THEN 1 ELSE 0) + (IF Pc(c, "q") \in p.cr THEN 2 ELSE 0)
+KindLetters == <<"p", "n", "b", "r", "q", "k">>
+ObsAcc(r, p) ==
+  /\ r.mycr = RightsIdx(p, p.stm) /\ r.theircr = RightsIdx(p, Other(p.stm))
+  /\ \A i \in 1..6 : SeqSet(r.kinds[i]) = {s \in Squares : p.b[s] \in {Pc("w", KindLetters[i]), Pc("b", KindLetters[i])}}
+
 ObsC04(r, p) == r.status = Status(p)
 
 ObsC05(r, p, old, isMove) ==
@@ -71,7 +79,8 @@ ObsC09(r, p) == \A q \in DOMAIN hmap : (q # p) => hmap[q] # r.hash
 
 Obs(r, p, old, l0, isMove) ==
   CASE PROP = "C01" -> ObsC01(r, p)
-    [] PROP = "C03" -> ObsC03(r, p)
+    [] PROP = "C02" -> ObsAcc(r, p)
+    [] PROP = "C03" -> ObsC03(r, p) /\ ObsAcc(r, p)
     [] PROP = "C04" -> ObsC04(r, p)
     [] PROP = "C05" -> ObsC05(r, p, old, isMove)
     [] PROP = "C06" -> ObsC06(r, p, l0)
